@@ -216,4 +216,4 @@ CONTRACTS = [
                                    'pony.orm.core:Entity._prefetch_load_all_', 'pony.orm.core:Entity._load_', 'pony.orm.core:EntityMeta._load_many_', 'pony.orm.core:Attribute.load'],
              _configs, _case, [('every_loading_strategy_observes_the_baseline_data', lambda cfg, i, path: path.outcome == 'ret' and path.value == [])], level='bounded',
              bound='5 model variants x 5 loading strategies x 13 observation programs (two of them read after a refused delete, three after pending collection changes, one asks membership questions after partial loads) on one stored data set'),
-]
+] + [c for c in __import__('contracts.c10', fromlist=['CONTRACTS']).CONTRACTS if c.id == 'blind_writes_survive_row_loads']          # an object known by key only / partly / completely must show the same values (shared with C10)
